@@ -15,6 +15,7 @@ fn main() -> ExitCode {
     let seed: u64 = args[3].parse().unwrap_or(0);
     let out = PathBuf::from(&args[4]);
     let only = args.get(5).map(String::as_str);
+    #[cfg(feature = "p10")]
     if prop == "C10DUMP" {
         // canonical dump of the seeded workload, compared across feature builds by ./check C10
         let (text, notes) = rosu_verif::c10::dump(tier, seed);
@@ -28,25 +29,45 @@ fn main() -> ExitCode {
         return ExitCode::SUCCESS;
     }
     let run: Run = match prop {
+        #[cfg(feature = "p01")]
         "C01" => rosu_verif::c01::run(tier, seed, only),
+        #[cfg(feature = "p02")]
         "C02" => rosu_verif::c02::run(tier, seed, only),
+        #[cfg(feature = "p03")]
         "C03" => rosu_verif::c03::run(tier, seed, only),
+        #[cfg(feature = "p04")]
         "C04" => rosu_verif::c04::run(tier, seed, only),
+        #[cfg(feature = "p05")]
         "C05" => rosu_verif::c05::run(tier, seed, only),
+        #[cfg(feature = "p06")]
         "C06" => rosu_verif::c06::run(tier, seed, only),
+        #[cfg(feature = "p07")]
         "C07" => rosu_verif::c07::run(tier, seed, only),
+        #[cfg(feature = "p08")]
         "C08" => rosu_verif::c08::run(tier, seed, only),
+        #[cfg(feature = "p09")]
         "C09" => rosu_verif::c09::run(tier, seed, only),
+        #[cfg(feature = "p10")]
         "C10" => rosu_verif::c10::run(tier, seed, only),
+        #[cfg(feature = "p11")]
         "C11" => rosu_verif::c11::run(tier, seed, only),
+        #[cfg(feature = "p12")]
         "C12" => rosu_verif::c12::run(tier, seed, only),
+        #[cfg(feature = "p13")]
         "C13" => rosu_verif::c13::run(tier, seed, only),
+        #[cfg(feature = "p14")]
         "C14" => rosu_verif::c14::run(tier, seed, only),
+        #[cfg(feature = "p15")]
         "C15" => rosu_verif::c15::run(tier, seed, only),
+        #[cfg(feature = "p16")]
         "C16" => rosu_verif::c16::run(tier, seed, only),
+        #[cfg(feature = "p17")]
         "C17" => rosu_verif::c17::run(tier, seed, only),
+        #[cfg(feature = "p18")]
         "C18" => rosu_verif::c18::run(tier, seed, only),
+        #[cfg(feature = "p19")]
         "C19" => rosu_verif::c19::run(tier, seed, only),
+        #[cfg(feature = "p20")]
         "C20" => rosu_verif::c20::run(tier, seed, only),
         _ => {
             eprintln!("unknown property {prop}");
